@@ -40,6 +40,8 @@ Wr(e) == CASE e = "pa" -> <<"a", "\n">>            \* print('a')
            [] e = "pab" -> <<"a", "\t", "b", "\n">> \* print('a', 'b', sep='\t')
            [] e = "w" -> <<"b">>                    \* sys.stdout.write('b')
            [] e = "sp" -> <<" ", " ", "\n">>        \* print('  ')
+           [] e = "wsv" -> <<"c">>                  \* saved_out.write('c') where the module did `saved_out = sys.stdout` when it
+                                                    \* was RUN: standard output as the student's program knows it
            [] e = "pnn" -> <<"\n", "\n">>           \* print('\n')
            [] e = "in" -> <<"p", "\n">>             \* input('p') echoes the prompt and a newline
            [] e = "ina" -> <<"p", "\n">>            \* ask('p') where the module did `ask = input` when it was RUN: inside a later
